@@ -93,6 +93,7 @@ type ipamMon struct {
 	newBind   int
 	releases  int
 	drifted   map[string]bool // addresses an out-of-band cloud change took away
+	createdOK map[string]bool // interfaces whose create call returned the id to the controller
 	cl        client.Client
 }
 
@@ -397,9 +398,14 @@ func (m *ipamMon) OnInvoke(c *cloudsim.CtrlCloud, call *cloudsim.CCall) {
 				attached++
 			}
 		}
+		recorded := attached
+		if m.lastCR != nil {
+			recorded = len(m.lastCR.Status.NetworkInterfaces)
+		}
 		pending := len(m.creating) + m.createInf
-		if attached+pending >= slots {
-			m.violate("C08", "C08.create-over-quota", "interfaces", fmt.Sprintf("CreateNetworkInterface while %d interfaces are attached and %d created-not-yet-attached, the instance allows %d", attached, pending, slots))
+		// the controller is judged on what it can know: the smaller of cloud truth and its stored record
+		if min(attached, recorded)+pending >= slots {
+			m.violate("C08", "C08.create-over-quota", "interfaces", fmt.Sprintf("CreateNetworkInterface while %d interfaces are attached (%d recorded) and %d created-not-yet-attached, the instance allows %d", attached, recorded, pending, slots))
 		}
 		m.createInf++
 	case "AssignPrivateIpAddresses", "AssignIpv6Addresses":
@@ -408,6 +414,15 @@ func (m *ipamMon) OnInvoke(c *cloudsim.CtrlCloud, call *cloudsim.CCall) {
 			cur, lim := len(e.V4), m.cfg.V4Per
 			if call.API == "AssignIpv6Addresses" {
 				cur, lim = len(e.V6), m.cfg.V6Per
+			}
+			if m.lastCR != nil {
+				if re := m.lastCR.Status.NetworkInterfaces[call.ENI]; re != nil {
+					rc := len(re.IPv4)
+					if call.API == "AssignIpv6Addresses" {
+						rc = len(re.IPv6)
+					}
+					cur = min(cur, rc)
+				}
 			}
 			if cur+call.N4+call.N6 > lim {
 				m.violate("C08", "C08.assign-over-limit", call.API, fmt.Sprintf("%s of %d on %s which has %d, per-interface limit %d", call.API, call.N4+call.N6, call.ENI, cur, lim))
@@ -449,8 +464,10 @@ func (m *ipamMon) OnReturn(c *cloudsim.CtrlCloud, call *cloudsim.CCall) {
 	switch call.API {
 	case "CreateNetworkInterface":
 		m.createInf--
-		if call.ENI != "" {
+		if call.ENI != "" && call.Err == "" {
+			// (a create that failed after its effect never told the controller the id: it can not count it)
 			m.creating[call.ENI] = true
+			m.createdOK[call.ENI] = true
 		}
 	case "AttachNetworkInterface":
 		if e, ok := c.ENIs[call.ENI]; ok && e.Status == "InUse" {
@@ -466,20 +483,23 @@ func (m *ipamMon) OnReturn(c *cloudsim.CtrlCloud, call *cloudsim.CCall) {
 // ---- history ----
 
 type ipamHist struct {
-	c      *ctxT
-	cfg    ipamCfg
-	mon    *ipamMon
-	hooks  *apisim.Hooks
-	cl     client.WithWatch
-	cloud  *cloudsim.CtrlCloud
-	vsw    *vswitch.SwitchPool
-	ctl    *mnode.ReconcileNode
-	agent  *eni.CRDV2
-	svc    *daemon.VerifService
-	rng    *rand.Rand
-	uidGen int
-	apiMu  sync.Mutex
-	apiFlt map[string]int // verb/kind -> remaining injected failures
+	c         *ctxT
+	cfg       ipamCfg
+	mon       *ipamMon
+	hooks     *apisim.Hooks
+	cl        client.WithWatch
+	cloud     *cloudsim.CtrlCloud
+	vsw       *vswitch.SwitchPool
+	ctl       *mnode.ReconcileNode
+	agent     *eni.CRDV2
+	svc       *daemon.VerifService
+	rng       *rand.Rand
+	uidGen    int
+	apiMu     sync.Mutex
+	apiFlt    map[string]int // verb/kind -> remaining injected failures
+	apiAt     map[string]int // kind -> position (1-based) of the one write that fails
+	apiAtKind string         // conflict | lost
+	apiSeen   map[string]int
 }
 
 func genIpamCfg(rng *rand.Rand) ipamCfg {
@@ -509,10 +529,10 @@ func genIpamCfg(rng *rand.Rand) ipamCfg {
 func newIpamHist(c *ctxT, prop string, hid int, cfg ipamCfg, seed int64) *ipamHist {
 	shortBackoffs()
 	h := &ipamHist{c: c, cfg: cfg, rng: rand.New(rand.NewSource(seed)), apiFlt: map[string]int{}}
-	h.mon = &ipamMon{r: c.R, prop: prop, hid: hid, cfg: cfg, pods: map[string]*ipamPod{}, byUID: map[string]*ipamPod{}, creating: map[string]bool{}, drifted: map[string]bool{}}
+	h.mon = &ipamMon{r: c.R, prop: prop, hid: hid, cfg: cfg, pods: map[string]*ipamPod{}, byUID: map[string]*ipamPod{}, creating: map[string]bool{}, drifted: map[string]bool{}, createdOK: map[string]bool{}}
 	h.cloud = cloudsim.NewCtrlCloud(func() int64 { return 0 }, seed)
 	h.cloud.AddVSW("vsw-1", "zone-a", 1, cfg.VSWFree)
-	h.cloud.AddVSW("vsw-2", "zone-a", 2, cfg.VSWFree)
+	h.cloud.AddVSW("vsw-2", "zone-a", 2, 5000) // the second vSwitch always has room
 	h.cloud.AddInstance("i-1", cfg.Adapters-1, cfg.V4Per, cfg.V6Per, 10)
 	h.cloud.Plan = cfg.Faults
 	kn := &corev1.Node{ObjectMeta: metav1.ObjectMeta{Name: "node-1", UID: "node-uid"}}
@@ -587,6 +607,21 @@ func newIpamHist(c *ctxT, prop string, hid int, cfg ipamCfg, seed int64) *ipamHi
 			}
 			h.apiMu.Lock()
 			defer h.apiMu.Unlock()
+			if h.apiAt != nil {
+				if h.apiSeen == nil {
+					h.apiSeen = map[string]int{}
+				}
+				h.apiSeen[kind]++
+				if h.apiSeen[kind] == h.apiAt[kind] {
+					h.mon.mu.Lock()
+					h.mon.ev("api: injected %s of %s #%d on %s", h.apiAtKind, verb, h.apiSeen[kind], kind)
+					h.mon.mu.Unlock()
+					if h.apiAtKind == "conflict" {
+						return apierrors.NewConflict(schema.GroupResource{Group: "network.alibabacloud.com", Resource: kind}, "node-1", fmt.Errorf("injected conflict"))
+					}
+					return apierrors.NewServiceUnavailable("injected: write lost")
+				}
+			}
 			if h.apiFlt[kind] > 0 {
 				h.apiFlt[kind]--
 				h.mon.mu.Lock()
